@@ -92,7 +92,7 @@ def family(sig):
 def gen(rng, tier):
     mode = rng.choice(["op", "op", "op", "nonblocking", "nocancel"])
     spec = {"mode": mode, "op": rng.randrange(len(OPS)), "nb": rng.randrange(len(NONBLOCKING)), "val": rng.choice(sorted(VALUES)),
-            "state": rng.choice(["resolved", "failed", "pending", "pending", "never"]),
+            "state": rng.choice(["resolved", "failed", "pending", "pending", "never"]) if mode != "nocancel" else rng.choice(["resolved", "failed", "pending", "pending", "never", "ext-cancel", "ext-cancel"]),
             "resolve_at": rng.choice([0, 0.05, 0.1, 0.5]), "timeout": rng.choice([None, None, 0, 0.0, 0.2, 1.0, 30.0]),
             "resolve_exc": rng.random() < 0.2,
             "ncancel": rng.choice([1, 2, 3]), "cancel_at": rng.choice([0, 0.02, 0.05, 0.1]), "settle": 3.0}
@@ -185,9 +185,14 @@ def run_nocancel(spec, env, inner):
     def resolver():
         if spec["state"] == "never":
             return
-        env.sleep(spec["resolve_at"] if spec["state"] == "pending" else 0)
+        env.sleep(spec["resolve_at"] if spec["state"] in ("pending", "ext-cancel") else 0)
         env.rec("resolve")
-        if inner.set_running_or_notify_cancel():
+        if spec["state"] == "ext-cancel":
+            # somebody else cancels the inner future directly: the wrapper mirrors that, and its
+            # own cancel() must keep answering False
+            if Future.cancel(inner):
+                inner.set_running_or_notify_cancel()
+        elif inner.set_running_or_notify_cancel():
             if spec["state"] == "failed" or spec["resolve_exc"]:
                 inner.set_exception(inner_exc)
             else:
